@@ -3,8 +3,8 @@
    [slab_size] is the reported size (ByteSize / header.size) computed as the in-memory bookkeeping
    does: the prefix constant of gen/Consts.v for the slab's role (root / non-root) plus the sum of
    the element sizes.  Scope: the slab and element kinds of theories/Codec.v (see props/C07.v);
-   slabs with inlined children / compact maps (the second documented saving) are covered by the
-   Go-side oracle of `harness codec` only. *)
+   slabs with inlined children / compact maps (the second documented saving) are the subject of
+   props/C06_inlined.v over theories/CodecInl.v. *)
 From Coq Require Import ZArith NArith List Bool.
 From AtreeGen Require Import Consts CodecConsts.
 From AtreeModel Require Import Codec.
